@@ -19,7 +19,7 @@ RULE = ("worlds with three-phase mixed-sign constraint matrices (1-6 constraints
         "direction matrices (1-4 periods) scaled so that the most binding constraint sits at limit + k*tol, k in "
         "{-10,-2,-0.5,0.5,2,10}; non-trivial = probe within +-2 tolerances of a limit on a mixed-sign constraint with >=2 "
         "distinct phase angles; distinct = history signature + probe pattern")
-PROBES = ["probe", "negative_limit_probe", "algorithm_side_default_tolerances", "creeping_schedule_probe", "non_finite_entry_probe", "probe_within_2tol_mixed_sign", "explicit_tolerances", "rel_tol_dominates", "linear_probe", "multi_period",
+PROBES = ["probe", "concurrent_callers", "negative_limit_probe", "algorithm_side_default_tolerances", "creeping_schedule_probe", "non_finite_entry_probe", "probe_within_2tol_mixed_sign", "explicit_tolerances", "rel_tol_dominates", "linear_probe", "multi_period",
           "negative_entries", "one_dim_vector", "constraint_free_world", "constraint_free_sorted_completed", "dict_omitted_rows",
           "executed_columns_checked", "invalid_schedule_warning_seen", "probe_after_reconfig", "exact_boundary_probe",
           "exactly_at_limit_plus_tol", "exact_linear_probe"]
@@ -231,6 +231,29 @@ def probe_once(out, sc, nw, iface, r, tag, cons):
                     out.add("C06/non_finite_accepted", "%s: %s check calls a schedule with %r at station %s (member of a constraint) feasible"
                             % (tag, kk, bad, ids[i]))
                     return
+    # two caller threads put questions to the same network at once (seeded interleaving of their steps): each gets the answer it
+    # would get alone
+    rth = sub(sc["seed"], "threads", tag, T)
+    if rth.random() < 0.08:
+        from ..threads import Interleaver
+        B_ = np.array([[0.5 * x for x in row] for row in M], dtype=float)
+        C_ = np.array([[1.7 * x + 0.3 for x in row] for row in M], dtype=float)
+        fns = [lambda: bool(nw.is_feasible(C_)), lambda: bool(nw.is_feasible(B_)),
+               lambda: bool(sut.algo_utils.infrastructure_constraints_feasible(A, infra, False, vt, rt))]
+        alone = [f() for f in fns]
+        res_, info_ = Interleaver(sub(sc["seed"], "interleave", tag, T), sut.in_repo).run(fns)
+        out.probe("concurrent_callers")
+        for (kind_, val_), alone_, nm_ in zip(res_, alone, ("network (heavier schedule)", "network (lighter schedule)", "algorithm-side")):
+            if kind_ == "exc":
+                from ..driver import classify_exception
+                if classify_exception(val_) == "harness":
+                    raise val_
+                out.add("C06/concurrent_callers", "%s: three threads asking at once: %s: %s" % (tag, type(val_).__name__, str(val_)[:100]))
+                return
+            if val_ != alone_:
+                out.add("C06/concurrent_callers", "%s: three threads asking at once (interleaving %s): the %s check answers %s, alone it answers %s"
+                        % (tag, info_["order"][:30], nm_, val_, alone_))
+                return
     # a slowly creeping multi-period schedule: column j is column 0 scaled by (1 + j*4e-6); column 0 sits half a tolerance inside
     # the most binding limit, the later columns are outside (each period is judged on its own, however little it differs
     # from its neighbour)
